@@ -305,14 +305,18 @@ func (s *Segment) writePtr(off address, src Ptr, forceCopy bool) error {
 			return nil
 		}
 		if forceCopy || src.seg.msg != s.msg || st.flags&isListMember != 0 {
-			newSeg, newAddr, err := alloc(s, st.size.totalSize())
+			// An element of a primitive list viewed as a struct has a data
+			// section shorter than a word; a struct pointer counts whole words.
+			dstSize := st.size
+			dstSize.DataSize = dstSize.DataSize.padToWord()
+			newSeg, newAddr, err := alloc(s, dstSize.totalSize())
 			if err != nil {
 				return annotate(err).errorf("write pointer: copy")
 			}
 			dst := Struct{
 				seg:        newSeg,
 				off:        newAddr,
-				size:       st.size,
+				size:       dstSize,
 				depthLimit: maxDepth,
 				// clear flags
 			}
